@@ -140,6 +140,7 @@ pub fn run(ctx: &Ctx) -> i32 {
          seam, power edge), or any case some stage declined; distinct by (format, w, q, t).",
     );
     rep.assume("t=true implies 1 <= w <= u64::MAX-1: callers never pass a zero significand with the truncation flag (src/parse.rs skips leading fraction zeros for exactly that reason) and the stage adds 1 to w (real callers have w < 10^19)");
+    let mut sweep_distinct = 0u64;
     // 1. enumerated sweep over the closest-approach table
     let t = hard_table();
     let third = match ctx.tier {
@@ -168,6 +169,35 @@ pub fn run(ctx: &Ctx) -> i32 {
         rep.absorb(r);
         rep.extra.insert(format!("closest_approach_table_{}", fmt.name()), json!({"entries": tab.len(), "swept": items.len(), "complete": third.is_none()}));
     }
+    // 1b. enumerated small significands: every w < 2^21 x q in [-30, 40], exact flag (products that are
+    // exactly or almost exactly representable: the class where a stage may skip error accounting);
+    // a seed-chosen residue class of w in quick, all of them in thorough
+    {
+        let stride: u64 = match ctx.tier {
+            Tier::Quick => 8,
+            Tier::Thorough => 1,
+        };
+        let off = ctx.seed % stride;
+        let wmax = 1u64 << 21;
+        let per_w = 71u64 * 2;
+        let count = ((wmax - off + stride - 1) / stride) * per_w;
+        let r = run_sweep(count, ctx.threads, |i, stats| {
+            let w = off + (i / per_w) * stride;
+            let q = ((i % per_w) / 2) as i32 - 30;
+            let fmt = if i % 2 == 0 { Fmt::F64 } else { Fmt::F32 };
+            check_one(fmt, w, q, false, stats)?;
+            if i % 1_000_003 == 0 {
+                stats.sample("small significand sweep", || json!({"w": w, "q": q, "format": fmt.name()}));
+            }
+            Ok(())
+        });
+        let n = r.stats.evaluations;
+        rep.absorb(r);
+        rep.stats.class("small-significand sweep (enumerated)");
+        rep.stats.add("small-significand-sweep-points", n);
+        rep.extra.insert("small_significand_sweep".into(), json!({"w_below": wmax, "q_range": [-30, 40], "stride": stride, "offset": off, "points": n, "complete": stride == 1}));
+        sweep_distinct += n;
+    }
     // 2. generated cases
     let cases = ctx.cases(1_500_000, 100_000_000);
     let r = run_recipes(ctx.seed, cases, ctx.threads, 11, |r, stats| {
@@ -182,6 +212,11 @@ pub fn run(ctx: &Ctx) -> i32 {
         Ok(())
     });
     rep.absorb(r);
+    {
+        // enumerated points are distinct by construction
+        let base = rep.stats.distinct_nontrivial();
+        rep.extra.insert("distinct_nontrivial_override".into(), json!(base + sweep_distinct));
+    }
     for k in ["lemire:f64:definite", "lemire:f64:declined", "bellerophon:f64:definite", "bellerophon:f64:declined", "lemire:f32:declined", "bellerophon:f32:declined"] {
         require_counter(&mut rep, k, 1000);
     }
